@@ -38,6 +38,11 @@ Confs_sub == {ConfS(HC_pq, <<"p", "q">>, lc, 2, [p |-> <<"p/x", "p/y">>]) : lc \
 HdlT(reasons, t) == [reasons |-> reasons, optional |-> FALSE, deleted |-> FALSE, retries |-> 0, mode |-> "temporary", backoff |-> 1, timeout |-> t]
 NoneT == [reasons |-> {}, optional |-> FALSE, deleted |-> FALSE, retries |-> 0, mode |-> "temporary", backoff |-> 2, timeout |-> 0]
 Confs_to == {[hc |-> [h \in H |-> IF h = "a" THEN HdlT({"create", "update"}, t) ELSE NoneT], order |-> <<"a">>, lifecycle |-> "asap", ctimeout |-> 2] : t \in {2, 3}}
+\* handlers that return results (status.<id>), on a kind without / with the status subresource (the status part is a request of its own)
+ConfR(hc, order, lc, ct, sb) == [hc |-> [h \in H |-> IF h \in DOMAIN hc THEN hc[h] ELSE None], order |-> order, lifecycle |-> lc, ctimeout |-> ct,
+                                 res |-> [ssub |-> sb, vals |-> {1, 2}]]
+Confs_res == {ConfR(HC_ab, Order_ab, lc, 2, sb) : lc \in {"one", "asap"}, sb \in BOOLEAN}
+Confs_res_ad == {ConfR(HC_ad, <<"a", "d">>, "asap", 2, sb) : sb \in BOOLEAN}
 NoDoors == {}
 AllDoors == {"kill", "lost", "late", "stop"}
 LateOnly == {"late"}
